@@ -195,23 +195,29 @@ func runC01(p *Prog, r *Report, tier string) {
 	if fr == nil {
 		r.Undecided("R-LAYOUT.field-specifier", "anchor: template field reader", "pkg/collector/process.go", "not found")
 	} else {
-		decs := callsTo(fr, "pkg/util.Decode")
+		// the reads of one field specifier, identified by what they read (the field reader may be a closure, a method or part
+		// of the template decoder itself): (2 raw id bytes, u16 length), then a lone u32 (the enterprise number)
+		allDecs := callsTo(fr, "pkg/util.Decode")
+		var decs []ssa.Instruction
 		okSpec, okEnt := false, false
 		var idBytes *ssa.Alloc
-		for i, d := range decs {
+		for _, d := range allDecs {
 			c := d.(*ssa.Call)
 			ts := decodeTargets(c)
-			if i == 0 && len(ts) == 2 && isBigEndianArg(c.Call.Args[1]) {
+			if !okSpec && len(ts) == 2 && isBigEndianArg(c.Call.Args[1]) {
 				w1, _ := widthOfPtr(ts[0].Type())
 				w2, _ := widthOfPtr(ts[1].Type())
 				if w1 == 0 && w2 == 2 && sliceLenOfCell(ts[0]) == 2 {
 					okSpec = true
 					idBytes = ts[0]
+					decs = append(decs, d)
 				}
+				continue
 			}
-			if i == 1 && len(ts) == 1 && isBigEndianArg(c.Call.Args[1]) {
+			if okSpec && !okEnt && len(ts) == 1 && isBigEndianArg(c.Call.Args[1]) {
 				if w, _ := widthOfPtr(ts[0].Type()); w == 4 {
 					okEnt = true
+					decs = append(decs, d)
 				}
 			}
 		}
@@ -262,10 +268,20 @@ func runC01(p *Prog, r *Report, tier string) {
 		nLk := 0
 		for _, l := range callsTo(fr, "pkg/registry.GetInfoElementFromID") {
 			c := l.(*ssa.Call)
-			if u, ok := c.Call.Args[0].(*ssa.Call); ok && calleeName(&u.Call) == "(encoding/binary.bigEndian).Uint16" {
-				if ld, ok := u.Call.Args[1].(*ssa.UnOp); ok && ld.X == ssa.Value(idBytes) {
-					nLk++
+			// the id may be computed in each branch and merged (phi): every way in must be Uint16 of the id bytes
+			all := true
+			leaves := phiLeaves(c.Call.Args[0], 4)
+			for _, lf := range leaves {
+				okLeaf := false
+				if u, ok := lf.(*ssa.Call); ok && calleeName(&u.Call) == "(encoding/binary.bigEndian).Uint16" {
+					if ld, ok := u.Call.Args[1].(*ssa.UnOp); ok && ld.X == ssa.Value(idBytes) {
+						okLeaf = true
+					}
 				}
+				all = all && okLeaf
+			}
+			if all && len(leaves) > 0 {
+				nLk++
 			}
 		}
 		r.Check(nLk >= 1 && nLk == len(callsTo(fr, "pkg/registry.GetInfoElementFromID")), "R-LAYOUT.field-specifier", fnKey(fr)+": registry lookup by (big-endian id bytes, enterprise number)", p.pos(fr.Pos()), "every lookup", "the element id used for the registry lookup is not the big-endian value of the id bytes read from the wire", true)
